@@ -59,7 +59,7 @@ impl Agenda {
     pub fn pop(&mut self) -> Option<PropId> {
         #[cfg(selen_verif)]
         if !self.q.is_empty() {
-            if let Some(i) = crate::verif_hooks::agenda_pick(self.q.len()) {
+            if let Some(i) = crate::verif_hooks::agenda_pick(self.q.iter().map(|p| p.0)) {
                 let p = self.q.remove(i)?;
                 self.set_scheduled(p, false);
                 return Some(p);
